@@ -26,7 +26,7 @@ REPO = Path(os.environ.get('VERIF_REPO', '/repo'))
 EVIDENCE_DIR = VERIF / 'evidence'
 REPLAY_DIR = VERIF / 'replays'
 
-Z3_TIMEOUT_MS = int(os.environ.get('VERIF_Z3_TIMEOUT_MS', '20000'))
+Z3_TIMEOUT_MS = int(os.environ.get('VERIF_Z3_TIMEOUT_MS', '40000'))
 CVC5_TIMEOUT_S = int(os.environ.get('VERIF_CVC5_TIMEOUT_S', '40'))
 
 
@@ -50,6 +50,8 @@ class Obl:
     meta: Dict[str, Any] = field(default_factory=dict)
     # optional: turn a counter-model into a concrete, JSON-able witness; receives ev(term) -> value term
     extract: Optional[Callable[[Any], Dict[str, Any]]] = None
+    # picklable alternative: witness field -> names of integer constants whose model values are wanted
+    witness_consts: Optional[Dict[str, List[str]]] = None
 
 
 @dataclass
@@ -110,7 +112,19 @@ def _cvc5_check(smt2: str, want_model: bool = False) -> str:
 COVER_TIMEOUT_MS = int(os.environ.get('VERIF_COVER_TIMEOUT_MS', '2500'))
 
 
+_HQ_CACHE: Dict[int, bool] = {}
+_HQ_KEEP: List[Any] = []
+
+
 def _has_quantifier(e: Any) -> bool:
+    i = e.get_id()
+    if i not in _HQ_CACHE:
+        _HQ_CACHE[i] = _has_quantifier_uncached(e)
+        _HQ_KEEP.append(e)  # keeps the id alive
+    return _HQ_CACHE[i]
+
+
+def _has_quantifier_uncached(e: Any) -> bool:
     seen = set()
     stack = [e]
     while stack:
@@ -148,6 +162,22 @@ def _discharge_cover(obl: Obl) -> OblResult:
     return OblResult(obl.name, obl.kind, 'unknown', backend, dt, detail='cover undecided', meta=obl.meta)
 
 
+def _mentions_bitvectors(assertions: List[Any]) -> bool:
+    seen = set()
+    stack = list(assertions)
+    n = 0
+    while stack and n < 400:
+        x = stack.pop()
+        if x.get_id() in seen:
+            continue
+        seen.add(x.get_id())
+        n += 1
+        if z3.is_bv(x):
+            return True
+        stack.extend(x.children())
+    return False
+
+
 def _solve_portfolio(assertions: List[Any], timeout_ms: int):
     """Solver verdicts on quantified VCs are unstable (the same query flips between 0.3 s and a
     timeout depending on the solver's internal state), so a query is tried in fresh contexts under a
@@ -161,6 +191,26 @@ def _solve_portfolio(assertions: List[Any], timeout_ms: int):
     share = max(2000, timeout_ms // 3)
     reason = ''
     quantified = any(_has_quantifier(a) for a in assertions)
+    if _mentions_bitvectors(assertions):
+        # wide bit-vector formulas: eager bit-blasting decides in milliseconds what the default
+        # strategy needs tens of seconds for
+        try:
+            ctx = z3.Context()
+            t = z3.Then(z3.Tactic('simplify', ctx=ctx), z3.Tactic('solve-eqs', ctx=ctx), z3.Tactic('bit-blast', ctx=ctx), z3.Tactic('smt', ctx=ctx))
+            s = t.solver()
+            s.set('timeout', max(share, timeout_ms // 2))
+            for a in assertions:
+                s.add(a.translate(ctx))
+            r = s.check()
+            if r != z3.unknown:
+                return (r, 'z3(bit-blast)', s, '')
+        except z3.Z3Exception:
+            pass
+        s0 = z3.Solver(ctx=assertions[0].ctx)
+        s0.add(*assertions)
+        r2 = _cvc5_check(s0.to_smt2().replace('(check-sat)', ''))
+        if r2 in ('sat', 'unsat'):
+            return (z3.sat if r2 == 'sat' else z3.unsat, 'cvc5', None, '')
     for i, (name, opts) in enumerate(configs):
         if i and not quantified:
             break
@@ -175,7 +225,9 @@ def _solve_portfolio(assertions: List[Any], timeout_ms: int):
         if r != z3.unknown:
             return (r, name, s, '')
         reason = s.reason_unknown()
-    s0 = z3.Solver()
+    if _mentions_bitvectors(assertions):
+        return (z3.unknown, 'z3+cvc5', None, reason)
+    s0 = z3.Solver(ctx=assertions[0].ctx) if assertions else z3.Solver()
     s0.add(*assertions)
     r2 = _cvc5_check(s0.to_smt2().replace('(check-sat)', ''))
     if r2 == 'sat':
@@ -220,6 +272,122 @@ def discharge(obl: Obl, timeout_ms: Optional[int] = None) -> OblResult:
             return OblResult(obl.name, 'canary', 'uncovered', backend, dt, meta=obl.meta)
         return OblResult(obl.name, 'canary', 'unknown', backend, dt, detail=s.reason_unknown(), meta=obl.meta)
     raise ValueError(obl.kind)
+
+
+# --------------------------------------------------------------------------- serialized obligations + global pool
+
+
+def serialize(obl: Obl) -> Dict[str, Any]:
+    """an obligation as picklable data (SMT-LIB2 text in z3's dialect): obligations are generated inside
+    the unit processes and discharged by ONE pool over all units, so a slow unit does not serialize its
+    own hard queries while other cores idle.  Every query is solved in a fresh context."""
+    s = z3.Solver()
+    s.add(*obl.hyps)
+    ground = None
+    if obl.kind == 'vc':
+        s.add(z3.Not(obl.goal))
+    else:
+        g = z3.Solver()
+        g.add(*[h for h in obl.hyps if not _has_quantifier(h)])
+        ground = g.to_smt2()
+    return dict(name=obl.name, kind=obl.kind, smt2=s.to_smt2(), ground=ground, meta=obl.meta, witness_consts=obl.witness_consts)
+
+
+class _ModelEv:
+    def __init__(self, model: Any, ctx: Any):
+        self.m, self.ctx = model, ctx
+
+    def __call__(self, t: Any) -> Any:
+        return self.m.eval(t.translate(self.ctx) if t.ctx != self.ctx else t, model_completion=True)
+
+
+def solve_serialized(d: Dict[str, Any]) -> OblResult:
+    t0 = time.time()
+    ctx = z3.Context()
+    try:
+        asr = list(z3.parse_smt2_string(d['smt2'], ctx=ctx))
+    except z3.Z3Exception as e:
+        return OblResult(d['name'], d['kind'], 'unknown', 'z3', 0.0, detail=f'smt2 round trip failed: {e}', meta=d['meta'])
+    if d['kind'] in ('cover', 'canary'):
+        s = z3.Solver(ctx=ctx)
+        s.set('timeout', COVER_TIMEOUT_MS)
+        s.add(*asr)
+        r = s.check()
+        backend = 'z3'
+        if r == z3.unknown and d['ground'] is not None:
+            g = z3.Solver(ctx=ctx)
+            g.set('timeout', COVER_TIMEOUT_MS)
+            g.add(*z3.parse_smt2_string(d['ground'], ctx=ctx))
+            r = g.check()
+            backend = 'z3-ground(quantified hyps not refuted)'
+        st = 'covered' if r == z3.sat else ('uncovered' if r == z3.unsat else 'unknown')
+        return OblResult(d['name'], d['kind'], st, backend, time.time() - t0, detail='' if st != 'unknown' else 'cover undecided', meta=d['meta'])
+    r, backend, s, reason = _solve_portfolio(asr, Z3_TIMEOUT_MS)
+    dt = time.time() - t0
+    if r == z3.unsat:
+        return OblResult(d['name'], 'vc', 'proved', backend, dt, meta=d['meta'])
+    if r == z3.sat:
+        res = OblResult(d['name'], 'vc', 'failed', backend, dt, model=_model_to_dict(s.model()) if s is not None else None, meta=d['meta'])
+        if s is not None and d.get('witness_consts'):
+            try:
+                m = s.model()
+                byname = {dd.name(): m[dd] for dd in m.decls() if dd.arity() == 0}
+
+                def num(nm: str) -> int:
+                    v = byname.get(nm)
+                    if v is None:
+                        return 0  # unconstrained by the counter-model
+                    return v.as_signed_long() if z3.is_bv_value(v) else (v.as_long() if z3.is_int_value(v) else int(z3.is_true(v)))
+
+                res.witness = {k: [num(n) for n in names] for k, names in d['witness_consts'].items()}
+            except Exception as e:
+                res.detail = f'witness extraction failed: {e!r}'
+        return res
+    return OblResult(d['name'], 'vc', 'unknown', backend, dt, detail=reason, meta=d['meta'])
+
+
+def _solve_job(d: Dict[str, Any]) -> OblResult:
+    try:
+        return solve_serialized(d)
+    except Exception:
+        return OblResult(d['name'], d['kind'], 'unknown', 'z3', 0.0, detail='solver worker crashed: ' + traceback.format_exc()[-300:], meta=d.get('meta', {}))
+
+
+def discharge_pool(sers: List[Dict[str, Any]], procs: Optional[int] = None) -> List[OblResult]:
+    import multiprocessing as mp
+
+    procs = procs or min(16, os.cpu_count() or 4)
+    if os.environ.get('VERIF_SERIAL') == '1' or len(sers) < 4:
+        return [_solve_job(d) for d in sers]
+    ctx = mp.get_context('fork')
+    with ctx.Pool(procs) as pool:
+        return pool.map(_solve_job, sers, chunksize=max(1, min(8, len(sers) // (procs * 8) or 1)))
+
+
+def finish_unit(eng: Any, extra: List[Obl]) -> Dict[str, Any]:
+    """what a verification unit returns: its obligations (serialized) and the constructs it dropped"""
+    return dict(obligations=[serialize(o) for o in list(eng.obligations) + list(extra)], dropped=list(eng.dropped))
+
+
+def run_and_discharge(rep: 'Report', jobs: List[tuple]) -> List[OblResult]:
+    """run the units in parallel, then discharge all their obligations through one pool"""
+    sers: List[Dict[str, Any]] = []
+    for (fn, args), (status, val) in zip(jobs, run_units(jobs)):
+        if status == 'ok':
+            vals = val if isinstance(val, list) else [val]
+            for v in vals:
+                sers.extend(v['obligations'])
+                for x in v['dropped']:
+                    if x not in rep.dropped:
+                        rep.dropped.append(x)
+        elif status == 'undecided':
+            rep.undecide(f'obligation={fn.__name__}{args} reason={val}')
+        else:
+            print(val)
+            rep.undecide(f'obligation={fn.__name__}{args} reason=checker-crash')
+    results = discharge_pool(sers)
+    rep.add_results(results)
+    return results
 
 
 # --------------------------------------------------------------------------- report
@@ -342,12 +510,17 @@ class Report:
         for line in printed_known:
             print(line)
         rc = 0
-        for v in real:
+        real.sort(key=lambda v: (not v.replayed,))  # replayed witnesses first
+        for n_printed, v in enumerate(real):
             path = write_replay(self.prop, v)
+            rc = 1
+            if n_printed >= 6:
+                continue  # every violation gets its replay file; the console shows the first few
             tail = '' if v.replayed else ' no-failing-input-found'
             print(f'VIOLATION property={self.prop} replay={path}{tail}')
             print(f'  obligation: {v.obligation}\n  what: {v.what}')
-            rc = 1
+        if len(real) > 6:
+            print(f'  ... and {len(real) - 6} more violated obligations (replay files under {REPLAY_DIR})')
         if rc == 0 and self.undecided:
             for u in self.undecided[:20]:
                 print(f'UNDECIDED property={self.prop} {u}')
